@@ -23,6 +23,8 @@ Inductive stmt :=
 | LMulF (x : string) (e : fexp)                  (* x *= e *)
 | LSetI (a : string) (k src : nexp)              (* a[k] = static_cast<index>(coord[src]) *)
 | LSetF (a : string) (k : nexp) (e : fexp)
+| LSetIRound (a : string) (k src : nexp)         (* a[k] = static_cast<index>(std::lrint(coord[src])) *)
+| LQuery (a : string)                            (* return m_backend.at(a): the layer's single query (recorded as neighbour 0) *)
 | LFetch (n : nexp) (cs : list cexp)             (* pc[n] = m_backend.at({cs...}) *)
 | LFetchHelper (n : nexp) (a : string)           (* pc[n] = m_backend.at(_backend_index_helper(a, n, make_index_sequence<N>{})) *)
 | LSetRv (e : fexp)                              (* rv[q] = e      (an expression of the coordinate type, stored) *)
@@ -88,6 +90,8 @@ Section Sem.
     | LMulF x e => set_f st x (f_mul ops tc (fvars st x) (feval st e))
     | LSetI a k src => set_ia st a (neval st k) (s_conv ops tc tidx (coord (neval st src)))
     | LSetF a k e => set_fa st a (neval st k) (feval st e)
+    | LSetIRound a k src => set_ia st a (neval st k) (s_conv ops I64 tidx (f_lrint ops tc (coord (neval st src))))
+    | LQuery a => set_fetch st 0 (map (iarrs st a) (seq 0 N))
     | LFetch n cs => set_fetch st (neval st n) (map (ceval st) cs)
     | LFetchHelper n a =>
         match helper with
